@@ -377,3 +377,265 @@ Qed.
 Theorem registries_read_only : forall cells astw fine reg sched ps,
   g_reg (snd (run_full cells astw fine reg sched ps)) = reg.
 Proof. intros. unfold run_full. rewrite registry_read_only. reflexivity. Qed.
+
+(* ------------------------------------------------------------------ *)
+(* The repair keeps the serial semantics: for a compiled query without  *)
+(* IN-subqueries, executing with the process-wide one-entry cache (OLD) *)
+(* from a cache that holds no entry of this table scan gives the same   *)
+(* rows as executing with the memo on the row context (NEW).            *)
+
+Lemma to_end_bind : forall A B (c : comp A) (f : A -> comp B) g,
+  to_end (bind c f) g = let (a, g1) := to_end c g in to_end (f a) g1.
+Proof.
+  intros A B c f. induction c; intros g; simpl; auto.
+Qed.
+
+Definition sim {A B} (R : A -> B -> glob -> Prop) (g : glob) (old : comp A) (new : comp B) : Prop :=
+  exists a b g1, to_end old g = (a, g1) /\ (forall g', fst (to_end new g') = b) /\ R a b g1.
+
+Lemma sim_ret : forall A B (R : A -> B -> glob -> Prop) g a b, R a b g -> sim R g (Ret a) (Ret b).
+Proof. intros. exists a, b, g. simpl. auto. Qed.
+
+Lemma sim_bind : forall A B A' B' (R : A -> B -> glob -> Prop) (R' : A' -> B' -> glob -> Prop)
+    g old new (f : A -> comp A') (f' : B -> comp B'),
+  sim R g old new -> (forall a b g1, R a b g1 -> sim R' g1 (f a) (f' b)) ->
+  sim R' g (bind old f) (bind new f').
+Proof.
+  intros A B A' B' R R' g old new f f' (a & b & g1 & Ho & Hn & Hr) Hf.
+  destruct (Hf a b g1 Hr) as (a' & b' & g2 & Ho' & Hn' & Hr').
+  exists a', b', g2. repeat split; auto.
+  - rewrite to_end_bind, Ho. exact Ho'.
+  - intros g'. rewrite to_end_bind. specialize (Hn g').
+    destruct (to_end new g') as [x gx]. simpl in Hn. subst x. apply Hn'.
+Qed.
+
+Lemma sim_yield : forall A B (R : A -> B -> glob -> Prop) g t t' old new,
+  sim R g old new -> sim R g (Yield t old) (Yield t' new).
+Proof. intros A B R g t t' old new (a & b & g1 & Ho & Hn & Hr). exists a, b, g1. simpl. auto. Qed.
+
+Lemma sim_yield_if : forall A B (R : A -> B -> glob -> Prop) g f old new,
+  sim R g old new -> sim R g (yield_if f old) (yield_if f new).
+Proof. intros. destruct f; simpl; auto. Qed.
+
+Definition erase (c : ctx) : ctx := mkC (c_id c) (c_rowid c) (c_bal c) None (c_post c).
+
+(* the cache holds exactly what the memo of this row context holds, or nothing of this scan *)
+Definition Inv (g : glob) (cn : ctx) : Prop :=
+  match c_memo cn with
+  | Some (r, v) => g_cache g = Some ((fst (c_id cn), snd (c_id cn), r), v)
+  | None => match g_cache g with
+            | Some ((t, s, _), _) => (t, s) <> c_id cn
+            | None => True
+            end
+  end.
+
+Definition Rev (a b : ev) (g : glob) : Prop :=
+  let '(v, co, l) := a in let '(v', cn, l') := b in
+  v = v' /\ co = erase cn /\ l = l' /\ Inv g cn.
+
+Fixpoint nosub (e : expr) : bool :=
+  match e with
+  | EIn _ _ _ _ => false
+  | EYield a | EUnknown a | EEmpty a | ENullOdd a => nosub a
+  | EAdd a b | ELt a b | EAnd a b => nosub a && nosub b
+  | _ => true
+  end.
+
+Section Repair.
+Variable fine : bool.
+Variable rows : list posting.
+
+Lemma ckey_eqb_spec : forall a b, ckey_eqb a b = true <-> a = b.
+Proof.
+  intros [[a1 a2] a3] [[b1 b2] b3]. unfold ckey_eqb.
+  rewrite !andb_true_iff, !Z.eqb_eq. split.
+  - intros [[? ?] ?]; subst; reflexivity.
+  - intros H; inversion H; auto.
+Qed.
+
+Lemma sim_balance : forall cn l g, Inv g cn ->
+  sim Rev g (eval_balance fine true (erase cn) l) (eval_balance fine false cn l).
+Proof.
+  intros cn l g HI. unfold sim, eval_balance, Inv in *.
+  destruct cn as [[t s] rid bal memo post]. simpl in *.
+  destruct memo as [[r v]|].
+  - (* memo present: cache = Some ((t,s,r),v) *)
+    destruct (r =? rid) eqn:Er.
+    + apply Z.eqb_eq in Er. subst r.
+      exists (Some v, erase (mkC (t, s) rid bal (Some (rid, v)) post), l), (Some v, mkC (t, s) rid bal (Some (rid, v)) post, l), g.
+      repeat split; auto.
+      destruct fine; simpl; rewrite HI; simpl; rewrite !Z.eqb_refl; reflexivity.
+    + set (b := bal + p_number post).
+      exists (Some b, erase (mkC (t, s) rid b (Some (rid, b)) post), l), (Some b, mkC (t, s) rid b (Some (rid, b)) post, l),
+             (mkG (Some ((t, s, rid), b)) (g_stmts g) (g_reg g)).
+      repeat split; auto.
+      destruct fine; simpl; rewrite HI; simpl; rewrite !Z.eqb_refl, Er; reflexivity.
+  - set (b := bal + p_number post).
+    exists (Some b, erase (mkC (t, s) rid b (Some (rid, b)) post), l), (Some b, mkC (t, s) rid b (Some (rid, b)) post, l),
+           (mkG (Some ((t, s, rid), b)) (g_stmts g) (g_reg g)).
+    repeat split; auto.
+    destruct (g_cache g) as [[[[t' s'] r'] v']|] eqn:Ec.
+    + assert (En : ckey_eqb (t', s', r') (t, s, rid) = false).
+      { destruct (ckey_eqb (t', s', r') (t, s, rid)) eqn:E; auto.
+        apply ckey_eqb_spec in E. inversion E; subst. exfalso. apply HI. reflexivity. }
+      destruct fine; simpl; rewrite Ec; rewrite En; reflexivity.
+    + destruct fine; simpl; rewrite Ec; reflexivity.
+Qed.
+
+Lemma sim_ebin : forall op g ea ea' eb,
+  sim Rev g ea ea' ->
+  (forall cn l g1, Inv g1 cn -> sim Rev g1 (eb true (erase cn) l) (eb false cn l)) ->
+  sim Rev g (ebin op ea (eb true)) (ebin op ea' (eb false)).
+Proof.
+  intros op g ea ea' eb Ha Hb. unfold ebin.
+  eapply sim_bind; [exact Ha|].
+  intros [[v co] l] [[v' cn] l'] g1 (Ev & Ec & El & HI). subst.
+  destruct v'; [|apply sim_ret; simpl; auto].
+  eapply sim_bind; [apply Hb; auto|].
+  intros [[v co] l] [[v2 cn2] l2] g2 (Ev & Ec & El & HI2). subst.
+  destruct v2; apply sim_ret; simpl; auto.
+Qed.
+
+Lemma sim_eval : forall e, nosub e = true -> forall cn l g, Inv g cn ->
+  sim Rev g (eval fine true rows e (erase cn) l) (eval fine false rows e cn l).
+Proof.
+  induction e; intros Hn cn l g HI; simpl in *; try (apply sim_ret; simpl; auto; fail).
+  - apply sim_balance; auto.
+  - (* EYield *)
+    eapply sim_bind; [apply IHe; auto|].
+    intros [[v co] l1] [[v' cn'] l'] g1 (Ev & Ec & El & HI1). subst.
+    destruct v'; [apply sim_yield|]; apply sim_ret; simpl; auto.
+  - apply IHe; auto.
+  - eapply sim_bind; [apply IHe; auto|].
+    intros [[v co] l1] [[v' cn'] l'] g1 (Ev & Ec & El & HI1). subst. apply sim_ret; simpl; auto.
+  - eapply sim_bind; [apply IHe; auto|].
+    intros [[v co] l1] [[v' cn'] l'] g1 (Ev & Ec & El & HI1). subst. apply sim_ret; simpl; auto.
+  - apply andb_true_iff in Hn as [H1 H2].
+    apply (sim_ebin op_add g _ _ (fun cached => eval fine cached rows e2)); auto.
+  - apply andb_true_iff in Hn as [H1 H2].
+    apply (sim_ebin op_lt g _ _ (fun cached => eval fine cached rows e2)); auto.
+  - (* EAnd *)
+    apply andb_true_iff in Hn as [H1 H2].
+    eapply sim_bind; [apply IHe1; auto|].
+    intros [[v co] l1] [[v' cn'] l'] g1 (Ev & Ec & El & HI1). subst.
+    destruct v'; [|apply sim_ret; simpl; auto].
+    destruct (z =? 0); [apply sim_ret; simpl; auto|].
+    eapply sim_bind; [apply IHe2; auto|].
+    intros [[v co] l1] [[v2 cn2] l2] g2 (Ev & Ec & El & HI2). subst.
+    destruct v2; apply sim_ret; simpl; auto.
+  - discriminate.
+Qed.
+
+Definition Revs (a b : list value * ctx * lst) (g : glob) : Prop :=
+  let '(v, co, l) := a in let '(v', cn, l') := b in
+  v = v' /\ co = erase cn /\ l = l' /\ Inv g cn.
+
+Lemma sim_evals : forall es, forallb nosub es = true -> forall cn l g, Inv g cn ->
+  sim Revs g (evals fine true rows es (erase cn) l) (evals fine false rows es cn l).
+Proof.
+  induction es as [|e t IH]; intros Hn cn l g HI; simpl in *.
+  - apply sim_ret; simpl; auto.
+  - apply andb_true_iff in Hn as [H1 H2].
+    eapply sim_bind; [apply sim_eval; auto|].
+    intros [[v co] l1] [[v' cn'] l'] g1 (Ev & Ec & El & HI1). subst.
+    eapply sim_bind; [apply IH; auto|].
+    intros [[vs co] l1] [[vs' cn2] l2] g2 (Ev & Ec & El & HI2). subst.
+    apply sim_ret; simpl; auto.
+Qed.
+
+Lemma erase_next_row : forall cn p, next_row (erase cn) p = erase (next_row cn p).
+Proof. reflexivity. Qed.
+
+Lemma Inv_next_row : forall g cn p, Inv g cn -> Inv g (next_row cn p).
+Proof. intros. unfold Inv in *. simpl. exact H. Qed.
+
+Definition Req {A} (a b : A) (g : glob) : Prop := a = b.
+
+Lemma sim_select_loop : forall ts w, forallb nosub ts = true -> nosub w = true ->
+  forall rs cn l acc g, Inv g cn ->
+  sim Req g (select_loop fine true rows ts w rs (erase cn) l acc) (select_loop fine false rows ts w rs cn l acc).
+Proof.
+  intros ts w Ht Hw rs. induction rs as [|p rs IH]; intros cn l acc g HI; simpl.
+  - apply sim_ret. reflexivity.
+  - rewrite erase_next_row. apply sim_yield_if.
+    eapply sim_bind; [apply sim_eval; auto; apply Inv_next_row; auto|].
+    intros [[v co] l1] [[v' cn'] l'] g1 (Ev & Ec & El & HI1). subst.
+    destruct (truthy v'); [|apply IH; auto].
+    eapply sim_bind; [apply sim_evals; auto|].
+    intros [[vs co] l1] [[vs' cn2] l2] g2 (Ev & Ec & El & HI2). subst. apply IH; auto.
+Qed.
+
+Definition Rst (a b : store * ctx * lst) (g : glob) : Prop :=
+  let '(v, co, l) := a in let '(v', cn, l') := b in
+  v = v' /\ co = erase cn /\ l = l' /\ Inv g cn.
+
+Lemma sim_agg_update : forall aggs, forallb (fun fe => nosub (snd fe)) aggs = true ->
+  forall st cn l g, Inv g cn ->
+  sim Rst g (agg_update fine true rows aggs st (erase cn) l) (agg_update fine false rows aggs st cn l).
+Proof.
+  induction aggs as [|[f e] t IH]; intros Hn st cn l g HI; simpl in *.
+  - apply sim_ret; simpl; auto.
+  - apply andb_true_iff in Hn as [H1 H2]. simpl in H1.
+    destruct st as [|s st']; [apply sim_ret; simpl; auto|].
+    eapply sim_bind with (R := Rev).
+    + destruct f.
+      * eapply sim_bind; [apply sim_eval; auto|].
+        intros [[v co] l1] [[v' cn'] l'] g1 (Ev & Ec & El & HI1). subst. apply sim_ret; simpl; auto.
+      * eapply sim_bind; [apply sim_eval; auto|].
+        intros [[v co] l1] [[v' cn'] l'] g1 (Ev & Ec & El & HI1). subst. apply sim_ret; simpl; auto.
+      * destruct s; [apply sim_ret; simpl; auto|apply sim_eval; auto].
+      * apply sim_eval; auto.
+    + intros [[v co] l1] [[v' cn'] l'] g1 (Ev & Ec & El & HI1). subst.
+      eapply sim_bind; [apply IH; auto|].
+      intros [[vs co] l1] [[vs' cn2] l2] g2 (Ev & Ec & El & HI2). subst. apply sim_ret; simpl; auto.
+Qed.
+
+Lemma sim_agg_loop : forall key aggs w, nosub key = true -> forallb (fun fe => nosub (snd fe)) aggs = true ->
+  nosub w = true -> forall rs cn l m g, Inv g cn ->
+  sim Req g (agg_loop fine true rows key aggs w rs (erase cn) l m) (agg_loop fine false rows key aggs w rs cn l m).
+Proof.
+  intros key aggs w Hk Ha Hw rs. induction rs as [|p rs IH]; intros cn l m g HI; simpl.
+  - apply sim_ret. reflexivity.
+  - rewrite erase_next_row. apply sim_yield_if.
+    eapply sim_bind; [apply sim_eval; auto; apply Inv_next_row; auto|].
+    intros [[v co] l1] [[v' cn'] l'] g1 (Ev & Ec & El & HI1). subst.
+    destruct (truthy v'); [|apply IH; auto].
+    eapply sim_bind; [apply sim_eval; auto|].
+    intros [[kv co] l1] [[kv' cn2] l2] g2 (Ev & Ec & El & HI2). subst.
+    eapply sim_bind; [apply sim_agg_update; auto|].
+    intros [[st co] l1] [[st' cn3] l3] g3 (Ev & Ec & El & HI3). subst. apply IH; auto.
+Qed.
+
+Definition nosub_query (q : query) : bool :=
+  match q with
+  | QSelect ts w => forallb nosub ts && nosub w
+  | QAgg key aggs w => nosub key && forallb (fun fe => nosub (snd fe)) aggs && nosub w
+  end.
+
+(* no entry of a scan of thread [tid] is in the cache *)
+Definition cache_foreign (tid : Z) (g : glob) : Prop :=
+  match g_cache g with Some ((t, _, _), _) => t <> tid | None => True end.
+
+Theorem repair_preserves_serial : forall tid q g g',
+  nosub_query q = true -> cache_foreign tid g ->
+  fst (to_end (exec fine true rows tid q) g) = fst (to_end (exec fine false rows tid q) g').
+Proof.
+  intros tid q g g' Hn Hc.
+  set (cn := mkC (tid, 0) 0 0 None (mkP 0 0 0)).
+  assert (HI : Inv g cn).
+  { unfold Inv, cache_foreign in *. simpl. destruct (g_cache g) as [[[[t s] r] v]|]; auto.
+    intros E. inversion E. auto. }
+  unfold exec. simpl.
+  destruct q as [ts w|key aggs w]; simpl in Hn.
+  - apply andb_true_iff in Hn as [H1 H2].
+    destruct (sim_select_loop ts w H1 H2 rows cn (mkL tid (0 + 1) []) [] g HI) as (a & b & g1 & Ho & Hnw & Hr).
+    red in Hr. subst b. unfold erase, cn in Ho. simpl in Ho.
+    rewrite !to_end_bind. rewrite Ho. specialize (Hnw g'). unfold cn in Hnw.
+    destruct (to_end (select_loop fine false rows ts w rows _ _ _) g'). simpl in *. subst. reflexivity.
+  - apply andb_true_iff in Hn as [H12 H3]. apply andb_true_iff in H12 as [H1 H2].
+    destruct (sim_agg_loop key aggs w H1 H2 H3 rows cn (mkL tid (0 + 1) []) [] g HI) as (a & b & g1 & Ho & Hnw & Hr).
+    red in Hr. subst b. unfold erase, cn in Ho. simpl in Ho.
+    rewrite !to_end_bind. rewrite Ho. specialize (Hnw g'). unfold cn in Hnw.
+    destruct (to_end (agg_loop fine false rows key aggs w rows _ _ _) g'). simpl in *. subst. reflexivity.
+Qed.
+End Repair.
